@@ -10,7 +10,7 @@ from ..core import cz, clist, copt, cbool
 from ..runner import Entry, differential
 from . import c20_translate
 
-PRE = "From EsVerif.Common Require Import Base.\nFrom EsVerif.C20 Require Import Model Spec Exec.\n"
+PRE = "From EsVerif.Common Require Import Base.\nFrom EsVerif.C20 Require Import Model Model2 Spec Exec.\n"
 
 
 def cpairs(l):
@@ -326,7 +326,7 @@ class PMap(Entry):
         r = ctx.rng
         cs = []
         for nproc in ([1, 2, 4, 8] if round == 0 else [3, 5]):
-            for _ in range(ctx.n(2, 8)):
+            for _ in range(ctx.n(4, 12)):
                 n = r.randrange(0, 14)
                 cs.append({"a": r.randrange(-3, 4), "b": r.randrange(-9, 10), "lat": r.randrange(1, 100),
                            "items": [r.randrange(-20, 20) for _ in range(n)],
@@ -519,7 +519,7 @@ class PMapExn(Entry):
         r = ctx.rng
         cs = []
         for nproc in ([1, 2, 4] if round == 0 else [3, 8]):
-            for _ in range(ctx.n(3, 10)):
+            for _ in range(ctx.n(7, 20)):
                 n = r.randrange(0, 14)
                 cs.append({"a": r.randrange(-3, 4), "b": r.randrange(-9, 10), "lat": r.randrange(1, 100),
                            "p": r.choice([2, 3, 5, 7, 50]), "r": r.randrange(0, 2), "q": r.choice([3, 4, 6, 50]), "s": r.randrange(0, 3),
